@@ -64,6 +64,23 @@ fn k5_spec_global_get() {
         assert!(ok);
     }
 }
+macro_rules! k5_spec {
+    ($name:ident, $kind:expr) => {
+        #[kani::proof]
+        #[kani::unwind(16)]
+        fn $name() {
+            let mut s = KaniSrc;
+            if let Some((ok, _)) = bodies::k5_initexpr_index_instr_matches_spec_of($kind, &mut s) {
+                assert!(ok);
+            }
+        }
+    };
+}
+k5_spec!(k5_spec_struct_new, 2);
+k5_spec!(k5_spec_struct_new_default, 3);
+k5_spec!(k5_spec_array_new, 4);
+k5_spec!(k5_spec_array_new_default, 5);
+k5_spec!(k5_spec_ref_i31, 9);
 #[kani::proof]
 #[kani::unwind(16)]
 fn k5_spec_ref_func() {
